@@ -225,7 +225,26 @@ func registerNodeEntries(w *world, needed map[string]bool) {
 	vcInst := joseInstance("jwt-vc", vh, vcl, nil, issuerKey)
 	w.add(&entryPoint{name: "verifier.Verify.jwt", kind: "jose",
 		instances: func(int) []*instance { return []*instance{vcInst} },
-		gen:       jwtUnusual(func() *node { return vh.clone() }, func() *node { return vcl.clone() }, issuerKey),
+		gen: func(op, pos string, level int, r *rand.Rand) []concrete {
+			out := jwtUnusual(func() *node { return vh.clone() }, func() *node { return vcl.clone() }, issuerKey)(op, pos, level, r)
+			if op == "unusual" && pos == "top" {
+				mk := func(name string, f func(c *node)) concrete {
+					c := vcl.clone()
+					f(c)
+					return concrete{"jwt-vc:" + name, txforge.CompactRaw(vh.bytes(), c.bytes(), issuerKey)}
+				}
+				generic := func(c *node) { c.get("vc").set("type", arr(str("VerifiableCredential"), str("ExampleCredential"))) }
+				out = append(out,
+					mk("generic-type", generic),
+					mk("generic-type-issuer-url", func(c *node) { generic(c); c.set("iss", str("https://issuer.example.com")) }),
+					mk("generic-type-issuer-blank", func(c *node) { generic(c); c.set("iss", str(" ")) }),
+					mk("generic-type-issuer-did-url-with-fragment", func(c *node) { generic(c); c.set("iss", str(issuerJWK+"#0")) }),
+					mk("generic-type-issuer-unknown-did-method", func(c *node) { generic(c); c.set("iss", str("did:example:123")) }),
+					mk("single-type", func(c *node) { c.get("vc").set("type", arr(str("VerifiableCredential"))) }),
+				)
+			}
+			return out
+		},
 		call: func(in []byte) (bool, string) {
 			c, err := vc.ParseVerifiableCredential(string(in))
 			if err != nil {
@@ -357,6 +376,17 @@ func registerNodeEntries(w *world, needed map[string]bool) {
 					h2, c2 := jwtVCParts("did:web:127.0.0.1%3A1", holderJWK, "vc-6")
 					creds(c).vals[1] = str(signJWT(h2, c2, issuerKey))
 				}),
+				mk("jwt-credential-generic-type-issuer-url", func(c *node) {
+					h2, c2 := jwtVCParts(issuerJWK, holderJWK, "vc-7")
+					c2.get("vc").set("type", arr(str("VerifiableCredential"), str("ExampleCredential")))
+					c2.set("iss", str("https://issuer.example.com"))
+					creds(c).vals[1] = str(signJWT(h2, c2, issuerKey))
+				}),
+				mk("json-credential-generic-type-issuer-url-with-proof", func(c *node) {
+					g := genericCredential("https://issuer.example.com", holderJWK)
+					g.del("credentialStatus")
+					creds(c).vals[1] = g
+				}),
 				mk("fifty-credentials", func(c *node) {
 					for i := 0; i < 50; i++ {
 						creds(c).vals = append(creds(c).vals, creds(c).vals[0].clone())
@@ -424,6 +454,12 @@ func registerNodeEntries(w *world, needed map[string]bool) {
 						c.get("vp").get("verifiableCredential").vals[0].set("type", arr(str("VerifiableCredential"), str("Other")))
 					}),
 					mk("no-credentials", func(c *node) { c.get("vp").set("verifiableCredential", arr()) }),
+					mk("extra-credential-generic-type-issuer-url", func(c *node) {
+						h2, c2 := jwtVCParts(issuerJWK, holderJWK, "vc-8")
+						c2.get("vc").set("type", arr(str("VerifiableCredential"), str("ExampleCredential")))
+						c2.set("iss", str("https://issuer.example.com"))
+						c.get("vp").get("verifiableCredential").vals = append(c.get("vp").get("verifiableCredential").vals, str(signJWT(h2, c2, issuerKey)))
+					}),
 				}
 			}
 			return nil
@@ -438,7 +474,7 @@ func registerNodeEntries(w *world, needed map[string]bool) {
 		}})
 
 	// ---- OpenID4VP authorization response (direct_post) parameters
-	pdOrg, err := pe.ParsePresentationDefinition([]byte(`{"id":"pd-openid4vp","format":{"ldp_vc":{"proof_type":["JsonWebSignature2020"]},"jwt_vp":{"alg":["ES256"]},"jwt_vc":{"alg":["ES256"]}},
+	pdOrg, err := pe.ParsePresentationDefinition([]byte(`{"id":"pd-openid4vp",
 	  "input_descriptors":[{"id":"org","constraints":{"fields":[{"path":["$.type"],"filter":{"type":"string","const":"NutsOrganizationCredential"}}]}}]}`))
 	if err != nil {
 		w.t.Fatal(err)
@@ -455,9 +491,20 @@ func registerNodeEntries(w *world, needed map[string]bool) {
 		_ = env.storage.GetSessionDatabase().GetStore(time.Minute, "oauth", "nonce").Put(nonce, state)
 	}
 	ah, acl := jwtVPParts(holderJWK, aud, nonce, selfAttested(holderJWK))
-	submission := obj("id", str("sub-1"), "definition_id", str("pd-openid4vp"), "descriptor_map", arr(
-		obj("id", str("org"), "format", str("jwt_vp"), "path", str("$"),
-			"path_nested", obj("id", str("org"), "format", str("ldp_vc"), "path", str("$.verifiableCredential[0]")))))
+	// a single credential is serialised as an object (go-did), which is what the submission builder's path expects
+	acl.get("vp").set("verifiableCredential", acl.get("vp").get("verifiableCredential").vals[0])
+	// the submission is produced by the real builder for exactly this wallet content
+	saVC, err := vc.ParseVerifiableCredential(string(selfAttested(holderJWK).bytes()))
+	if err != nil {
+		w.t.Fatal(err)
+	}
+	sb := pdOrg.PresentationSubmissionBuilder()
+	sb.AddWallet(mustDID(holderJWK), []vc.VerifiableCredential{*saVC})
+	builtSubmission, _, err := sb.Build("jwt_vp")
+	if err != nil {
+		w.t.Fatalf("harness: cannot build submission: %v", err)
+	}
+	submission := fromGo(builtSubmission)
 	respInst := &instance{name: "authorization-response",
 		parts:   map[string]*node{"body": obj("state", str(state), "vp_token", str("$VP"), "presentation_submission", submission), "header": ah, "claims": acl},
 		order:   []string{"body", "header", "claims"},
@@ -487,6 +534,14 @@ func registerNodeEntries(w *world, needed map[string]bool) {
 				{"response:vp_token-array-of-two", body("state", str(state), "vp_token", arr(tok, tok), "presentation_submission", submission)},
 				{"response:vp_token-json-ld", body("state", str(state), "vp_token", ldVP, "presentation_submission", submission)},
 				{"response:submission-missing", body("state", str(state), "vp_token", tok)},
+				{"response:credential-generic-type-issuer-url", func() []byte {
+					h2, c2 := jwtVCParts(issuerJWK, holderJWK, "vc-9")
+					c2.get("vc").set("type", arr(str("VerifiableCredential"), str("ExampleCredential")))
+					c2.set("iss", str("https://issuer.example.com"))
+					c := acl.clone()
+					c.get("vp").set("verifiableCredential", arr(c.get("vp").get("verifiableCredential").clone(), str(signJWT(h2, c2, issuerKey))))
+					return body("state", str(state), "vp_token", str(string(txforge.CompactRaw(ah.bytes(), c.bytes(), holderKey))), "presentation_submission", submission)
+				}()},
 				{"response:submission-not-json", body("state", str(state), "vp_token", tok, "presentation_submission", str("{"))},
 				{"response:submission-other-definition", body("state", str(state), "vp_token", tok, "presentation_submission",
 					obj("id", str("s"), "definition_id", str("other"), "descriptor_map", arr()))},
@@ -517,7 +572,19 @@ func registerNodeEntries(w *world, needed map[string]bool) {
 		}})
 
 	// ---- JAR: signed authorization request object (request= query parameter of the authorization endpoint)
-	clientID := "http://127.0.0.1:1/oauth2/client" // OpenID configuration of the client is not reachable: validated up to there
+	// the client's OpenID configuration (a signed JWT) is served by a local server, so the request object validates completely
+	var clientID string
+	metaSrv := httptest.NewServer(http.HandlerFunc(func(rw http.ResponseWriter, r *http.Request) {
+		jwkPub := holderKey.JWK()
+		jwkPub["kid"] = holderJWK + "#0"
+		claims := fromGo(map[string]any{"iss": clientID, "iat": time.Now().Unix() - 1, "exp": time.Now().Unix() + 600,
+			"jwks": map[string]any{"keys": []any{jwkPub}}, "authorization_endpoint": clientID + "/authorize", "response_types_supported": []string{"vp_token"}})
+		hdr := obj("alg", str("ES256"), "typ", str("JWT"), "kid", str(holderJWK+"#0"))
+		rw.Header().Set("Content-Type", "application/entity-statement+jwt")
+		_, _ = rw.Write(txforge.CompactRaw(hdr.bytes(), claims.bytes(), holderKey))
+	}))
+	w.t.Cleanup(metaSrv.Close)
+	clientID = metaSrv.URL + "/oauth2/client"
 	jh := obj("alg", str("ES256"), "typ", str("oauth-authz-req+jwt"), "kid", str(holderJWK+"#0"))
 	jcl := obj("iss", str(holderJWK), "aud", str(aud), "client_id", str(clientID), "response_type", str("vp_token"), "response_mode", str("direct_post"),
 		"response_uri", str("https://client.example.com/response"), "nonce", str("n"), "state", str("s"), "scope", str("test"),
